@@ -1,17 +1,20 @@
 mod alloc;
 mod bitops;
 mod branchupd;
+mod bttree;
 mod core_mp;
 mod core_pp;
 mod crash;
 mod db;
 mod delta;
+mod finishops;
 mod flock;
 mod image;
 mod seglog;
 mod seek;
 mod shards;
 mod iohook;
+mod iopool;
 mod leafupd;
 mod lockrec;
 mod openpath;
@@ -78,13 +81,16 @@ fn main() {
         "caches-open0" => caches::run_open0(seed, cases, &mut sink),
         "extrange" => extrange::run(seed, cases, &mut sink),
         "openpath" => openpath::run(seed, cases, &mut sink),
+        "iopool" => iopool::run(seed, cases, &mut sink),
         "openpath-findings" => openpath::run_findings(seed, &mut sink),
+        "bttree" => bttree::run(seed, cases, &mut sink),
         "overlay-index" => ovl::run(seed, cases, &mut sink),
         "bitops" => bitops::run(seed, cases, &mut sink),
         "bitops-node" => bitops::run_nodes(seed, cases, &mut sink),
         "seglog" => seglog::run(seed, cases, &mut sink),
         "triepos" => triepos::run(seed, cases, &mut sink),
         "shards" => shards::run(seed, cases, &mut sink),
+        "finishops" => finishops::run(seed, cases, &mut sink),
         "delta" => delta::run(seed, cases, &mut sink),
         "delta-log" => delta::run_log(seed, cases, &mut sink),
         "overflow" => overflow::run(seed, cases, &mut sink),
